@@ -393,7 +393,7 @@ class TlcResult:
 
 def run_tlc(module, cfg=None, workers=8, simulate=None, depth=None, timeout=1800,
             env_extra=None, dfs=False, keep_lines=False, on_replay=None, coverage=False,
-            heap="4g", seed_=None, gendir=None, on_raw=None):
+            heap="4g", seed_=None, gendir=None, on_raw=None, max_replays=None):
     """Run TLC on spec/<module>.tla with spec/<cfg>.cfg.  REPLAY lines are parsed
     (JSON) and collected or streamed to on_replay.  With on_raw the payload of each
     REPLAY line is handed over unparsed (parse it with parse_replay_payload, e.g. in
@@ -431,6 +431,8 @@ def run_tlc(module, cfg=None, workers=8, simulate=None, depth=None, timeout=1800
     timer.start()
     errlines = []
     in_err = False
+    nrep = 0
+    stopped = False
     try:
         for line in p.stdout:
             line = line.rstrip("\n")
@@ -447,6 +449,11 @@ def run_tlc(module, cfg=None, workers=8, simulate=None, depth=None, timeout=1800
                     on_replay(obj)
                 else:
                     res.replays.append(obj)
+                nrep += 1
+                if max_replays and nrep >= max_replays:
+                    stopped = True       # enough cases: stop the (unbounded) simulation
+                    p.kill()
+                    break
                 continue
             m = _DISAGREE_RE.match(line)
             if m:
@@ -487,7 +494,7 @@ def run_tlc(module, cfg=None, workers=8, simulate=None, depth=None, timeout=1800
     res.wall = time.time() - t0
     res.errtext = "\n".join(errlines)
     shutil.rmtree(meta, ignore_errors=True)
-    if simulate and rc == 0 and not errlines:
+    if simulate and (rc == 0 or stopped) and not errlines:
         res.ok = True
     if rc != 0 and not res.violation and not errlines:
         res.errtext = "TLC exit status %d (timeout %ds?)" % (rc, timeout)
